@@ -141,7 +141,7 @@ def r16a(model: Model, rr: RuleResult):
                 if vnames and vnames <= covered and not stale:
                     rr.ok(f"{cname}.{on}: {f.type} <- {short(val)} guarded by {pred}({', '.join(sorted(vnames))})")
                 else:
-                    rr.bad(fi, call, f"{cname}.{on} is an OpenType {f.type} but {short(val)} is stored without a dominating "
+                    rr.bad_shape(fi, call, f"{cname}.{on} is an OpenType {f.type} but {short(val)} is stored without a dominating "
                            f"{pred}(...) on {sorted(vnames - covered) or sorted(vnames)}: an out-of-range value would wrap or fail at compile time",
                            construct=f"return {cname}(...{fname}={short(val)}...) unguarded {on}")
         # --- semantic preconditions ----------------------------------------------------------
@@ -468,7 +468,7 @@ def r16d(model: Model, rr: RuleResult):
     if "sx, _ = uniform_transform.getscale()" in t and "r0 = self.r0 * sx" in t and "r1 = self.r1 * sx" in t:
         rr.ok("radii are scaled by the uniform part's scale")
     else:
-        rr.bad(fi, fi.node, "radii are not scaled by the uniform transform's scale factor", construct="PaintRadialGradient.apply_transform: radii")
+        rr.bad_shape(fi, fi.node, "radii are not scaled by the uniform transform's scale factor", construct="PaintRadialGradient.apply_transform: radii")
     d = model.func("paint", "_decompose_uniform_transform")
     rets = [st for st in walk_body(d) if isinstance(st, ast.Return)]
     if rets and norm(rets[0].value) == "(uniform_transform, remaining_transform)":
@@ -480,7 +480,7 @@ def r16d(model: Model, rr: RuleResult):
     if "(uniform_scale.inverse(), scale, remaining_transform)" in txt and "(uniform_scale, translate)" in txt:
         rr.ok("remaining = uniform_scale^-1 . scale . rest; uniform = uniform_scale then translate (so uniform . remaining = original)")
     else:
-        rr.bad(d, d.node, f"the decomposition no longer recomposes to the original transform (compositions: {txt})", construct="_decompose_uniform_transform: compositions")
+        rr.bad_shape(d, d.node, f"the decomposition no longer recomposes to the original transform (compositions: {txt})", construct="_decompose_uniform_transform: compositions")
 
 
 FT_FIELD_MAP = {"centerX": "center[0]", "centerY": "center[1]", "Transform.xx": "transform[0]", "Transform.yx": "transform[1]", "Transform.xy": "transform[2]",
